@@ -714,6 +714,8 @@ def _has_loop(t):
 def const_term(op):
     if "fn" in op:
         return ("fnitem", op["fn"].get("res") or op["fn"].get("path"))
+    if "variant" in op and "enum" in op:
+        return ("enumconst", op["enum"], op["variant"])
     if "int" in op:
         if "item" in op:
             return ("int", op["int"], op.get("ty"), op["item"])
@@ -867,6 +869,49 @@ def short(path):
         return p
     parts = p.split("::")
     return "::".join(parts[-2:]) if len(parts) > 2 else p
+
+
+# =====================================================================================
+# Closure captures
+# =====================================================================================
+
+def closure_env(F, closure_fn, _depth=0):
+    """Terms (in the defining function's vocabulary) of the values a closure captured, by env field index."""
+    path = closure_fn.path
+    i = path.rfind("::{closure#")
+    if i < 0 or _depth > 4:
+        return []
+    parent = F.fns.get(path[:i])
+    if parent is None:
+        return []
+    T = Terms(parent)
+    for b in parent.rpo():
+        for s in parent.blocks[b]["s"]:
+            if s[0] == "=" and s[2].get("k") == "agg" and s[2].get("agg") == "closure" and s[2]["closure"] == path:
+                env = [T.operand(o) for o in s[2]["ops"]]
+                if "::{closure#" in parent.path:
+                    penv = closure_env(F, parent, _depth + 1)
+                    env = [subst_env(t, penv) for t in env]
+                return env
+    return []
+
+
+def subst_env(t, env):
+    """replace fields of the closure environment parameter (param 1, field k) by the captured terms."""
+    if not isinstance(t, tuple) or not t:
+        return t
+    if t[0] == "field" and t[1][0] == "param" and t[1][1] == 1 and t[2].isdigit() and int(t[2]) < len(env):
+        return env[int(t[2])]
+    out = []
+    for x in t:
+        if isinstance(x, tuple):
+            if x and isinstance(x[0], tuple):
+                out.append(tuple(subst_env(y, env) for y in x))
+            else:
+                out.append(subst_env(x, env))
+        else:
+            out.append(x)
+    return tuple(out)
 
 
 # =====================================================================================
